@@ -21,7 +21,7 @@ func init() {
 	register(&Workload{Prop: "C15", Variant: "differential", Horizon: 30 * time.Minute, MaxSteps: 1500000, MaxG: 8192, Spin: 40000, PCTLen: 8000, Body: c15Differential})
 }
 
-var c15Ops = []string{"Tell", "Ask/Reply", "Kill(immediate)", "Kill(poison)", "Watch+death", "Watch+Unwatch+death", "Ping", "PipeTo(success)", "PipeTo(error)", "Scheduler.Once(receiver)", "ActorSystem.Tell", "ActorSystem.Kill", "Reply-to-remote-asker"}
+var c15Ops = []string{"Tell", "Ask/Reply", "Kill(immediate)", "Kill(poison)", "Watch+death", "Watch+Unwatch+death", "Ping", "PipeTo(success)", "PipeTo(error)", "Scheduler.Once(receiver)", "ActorSystem.Tell", "ActorSystem.Kill", "Reply-to-remote-asker", "Watch(two same-path watchers)+death", "Watch(two same-path watchers)+Unwatch(one)+death"}
 
 func c15Differential(r *R) {
 	op := r.Index % len(c15Ops)
@@ -158,6 +158,25 @@ func c15Differential(r *R) {
 							n.Sys.Kill(lr, false, "c15")
 						})
 					})
+				case 13, 14:
+					// a symmetric deployment: node B runs an actor with the same path (/op) that watches the same target
+					ctx.Watch(tref)
+					if op == 14 {
+						ctx.Unwatch(tref)
+					}
+					ref := tref
+					vsimrt.Go("c15.killer", func() {
+						vsimrt.SetTag(1)
+						vsimrt.Sleep(500 * time.Millisecond)
+						n := a
+						if where == "remote" {
+							n = b
+						}
+						n.Do(func() {
+							lr, _ := n.Sys.CreateRef(ref.GetAddress(), ref.GetPath())
+							n.Sys.Kill(lr, false, "c15")
+						})
+					})
 				case 6:
 					tr := tref
 					vsimrt.Go("c15.ping", func() {
@@ -204,6 +223,26 @@ func c15Differential(r *R) {
 			a.Sys.Tell(opRef, start{rr})
 		}
 	})
+	if op == 13 || op == 14 {
+		b.Do(func() {
+			opB, _ := b.Sys.ActorOf(vivid.ActorFN(func(ctx vivid.ActorContext) {
+				switch m := ctx.Message().(type) {
+				case start:
+					tref, _ := ctx.System().CreateRef(m.r.addr, m.r.tpath)
+					ctx.Watch(tref)
+				case *vivid.OnKilled:
+					for _, rr := range runs {
+						if m.Ref != nil && m.Ref.GetPath() == rr.tpath {
+							obs(rr.where, fmt.Sprintf("watcher@B-got-OnKilled naming-target=%v", m.Ref.GetAddress() == rr.addr))
+						}
+					}
+				}
+			}), vivid.WithActorName("op"))
+			for _, rr := range runs {
+				b.Sys.Tell(opB, start{rr})
+			}
+		})
+	}
 	r.Waiting("operations to settle")
 	vsimrt.SettleFor(8 * time.Second)
 	if r.Failed() {
@@ -228,6 +267,28 @@ func c15Differential(r *R) {
 	if fmt.Sprint(loc) != fmt.Sprint(rem) {
 		r.Fail("C15/outcome-differs op="+c15Ops[op], "operation %s: with a local target the observable outcome is %v, with a remote target it is %v (user codec: %v)", c15Ops[op], loc, rem, codec)
 		return
+	}
+	// the differential comparison cannot see a failure that hits both sides alike: absolute expectations for the watch operations
+	want := map[int][]string{
+		4:  {"watcher-got-OnKilled naming-target=true"},
+		5:  {},
+		13: {"watcher-got-OnKilled naming-target=true", "watcher@B-got-OnKilled naming-target=true"},
+		14: {"watcher@B-got-OnKilled naming-target=true"},
+	}
+	if exp, ok := want[op]; ok {
+		for i, got := range [][]string{loc, rem} {
+			side := []string{"local", "remote"}[i]
+			var notices []string
+			for _, o := range got {
+				if len(o) > 7 && o[:7] == "watcher" {
+					notices = append(notices, o)
+				}
+			}
+			if fmt.Sprint(notices) != fmt.Sprint(sortedCopy(exp)) && !(len(notices) == 0 && len(exp) == 0) {
+				r.Fail("C15/watch-notices-wrong op="+c15Ops[op], "operation %s with a %s target: the watchers received %v, expected %v (A:/op and B:/op are different actors with the same path; user codec: %v)", c15Ops[op], side, notices, exp, codec)
+				return
+			}
+		}
 	}
 	netFaultCounts(r, nw)
 	_ = a.Stop()
